@@ -24,6 +24,10 @@ pub use data_structures::*;
 mod combinations;
 use combinations::*;
 
+/// Verification hooks (only with `--cfg arkworks_rs_poly_commit_verif`).
+#[cfg(arkworks_rs_poly_commit_verif)]
+pub mod verif_hooks;
+
 /// Multivariate polynomial commitment based on the construction in [[PST13]][pst]
 /// with batching and (optional) hiding property inspired by the univariate scheme
 /// in [[CHMMVW20, "Marlin"]][marlin]
